@@ -120,6 +120,9 @@ class _Arm:
 
 rule("C05.u", "the reported fill level contains start level, charge, discharge and inflow on every path: Storage.fill_level has no return "
               "before the block that adds the accumulated inflow (a shortcut for 'nothing dispatched' would report a level without inflow)", floor=1)
+rule("C05.v", "the reported fill level of a storage with its own coarser frequency rises with the inflow in every fine step: the inflow block of "
+              "Storage.fill_level distinguishes restricted.I_minor_in_major (fine steps, fine step lengths) from the plain restricted grid", floor=1,
+     props=["C05", "C13"])
 rule("C05.q", "reported fill level of a storage with a coarser frequency: a variable has one mapping row per fine step, each with its share of "
               "the variable as dispatch factor - the level is accumulated over *every* row, weighted with that factor (and the inflow enters every "
               "fine step); reduced to one row per variable the whole volume of a coarse step is booked at its first fine step", floor=2,
@@ -130,7 +133,7 @@ rule("C05.p", "the series reported for an asset (charge, discharge, internal var
               "+ efficiency x charge - discharge no longer gives the level)", floor=2, props=["C05", "C01"])
 
 
-@analysis("storage", ["C05.a", "C05.e", "C05.g", "C05.h", "C05.k", "C05.o", "C05.p", "C05.q", "C05.u"])
+@analysis("storage", ["C05.a", "C05.e", "C05.g", "C05.h", "C05.k", "C05.o", "C05.p", "C05.q", "C05.u", "C05.v"])
 def run(ctx):
     p = ctx.p
     sto = p.cls("Storage")
@@ -479,6 +482,16 @@ def run(ctx):
                    "fill_level returns at %s before the accumulated inflow is added: on that path (an idle storage, an empty selection ...) the "
                    "reported level stays at the start level while the level in the restrictions rises with the inflow (reported 10, physical 58 "
                    "at the last step)" % "; ".join(p.where(r) for r in early[:3]), node=(early[0] if early else flu.node))
+
+    # ================================================================= C05.v inflow of a storage with coarser frequency
+    if flu is not None and infl:
+        fine = [x for b in infl for x in ast.walk(b) if isinstance(x, ast.If) and x is not b and "I_minor_in_major" in au.U(x.test)]
+        uses = [x for b in infl for x in ast.walk(b) if isinstance(x, ast.Attribute) and x.attr == "I_minor_in_major" and isinstance(x.ctx, ast.Load)]
+        ctx.ob("C05.v", flu, "inflow enters in every fine step of a coarse interval", bool(fine) and len(uses) >= 2,
+               "the inflow block of fill_level has no branch for a storage with its own coarser frequency (restricted.I_minor_in_major): "
+               "restricted.I holds the first fine step of each coarse step and restricted.dt its whole length, so the inflow of a coarse step is "
+               "booked at its first fine step - the reported level is too high inside every coarse step and may exceed the size (reported 5.5, "
+               "physical 2.5; max 13 at size 10)", node=infl[0])
 
     # ================================================================= C05.q every row of a variable, weighted
     flq = p.fn_opt("Storage.fill_level")
